@@ -37,7 +37,7 @@ def main():
         cases.append({"op": "hash_eq", "l": a, "r": b})
         groups.append((start, a, b))
     # ---- coherence on offset scales (zero and equal readings included) and after an equivalence has been declared twice
-    def table(payload, pairs, tag, value_of=None, exact=False):
+    def table(payload, pairs, tag, value_of=None, exact=False, tie=Fraction(1, 10**6)):
         ops = ("eq", "ne", "lt", "le", "gt", "ge")
         cs = []
         for a, b in pairs:
@@ -55,7 +55,7 @@ def main():
             g = lambda k: R[k]["bool"]
             if value_of:
                 va, vb = value_of(a), value_of(b)
-                if va != vb and abs(va - vb) < Fraction(1, 10**6) * max(abs(va), abs(vb), 1): continue
+                if va != vb and abs(va - vb) < tie * max(abs(va), abs(vb), 1): continue
                 if va == vb and a["u"] != b["u"] and not exact: continue        # exact ties reached through floats (exact: every ratio is a power of two)
                 if g("lt") != (va < vb) or g("eq") != (va == vb):
                     c.violation(f"physical-order:{tag}", f"order disagrees with the physical values {float(va)} vs {float(vb)}", repl)
@@ -74,6 +74,17 @@ def main():
             for x, y in ((0, 0), (0, 5), (100, 100), (-40, -40), (300, 27), (32, 0), (0, 32)):
                 tp.append(({"m": ["int", str(x), "1"], "u": [[None, s1, 1]]}, {"m": [rng.choice(["int", "float"]), str(y), "1"], "u": [[None, s2, 1]]}))
     table({"systems": True}, tp, "temperature", kval)
+    # readings on different scales that are close but not equal (1e-9 .. 1e-10 of the temperature apart: a million times float rounding):
+    # exactly the one of <, ==, > the exact values dictate
+    def fl_(x):
+        n_, d_ = float(x).as_integer_ratio(); return ["float", str(n_), str(d_)]
+    near = []
+    for x in (300.0, 1234.5, 77.25):
+        for g in (3e-7, 1e-7, -2e-7, 4e-8):
+            near.append(({"m": fl_(x), "u": [[None, "kelvin", 1]]}, {"m": fl_(x - 273.15 + g), "u": [[None, "celsius", 1]]}))
+            near.append(({"m": fl_(x * 9 / 5 + g), "u": [[None, "Rankine", 1]]}, {"m": fl_(x), "u": [[None, "kelvin", 1]]}))
+            near.append(({"m": fl_((x - 273.15) * 9 / 5 + 32 + g), "u": [[None, "fahrenheit", 1]]}, {"m": fl_(x - 273.15), "u": [[None, "celsius", 1]]}))
+    table({"systems": True}, near, "temperature-near", kval, tie=Fraction(1, 10**11))
     # the same pair declared twice (from both sides), the later declaration wins in both directions
     define = [["zzq0", [[1, 1]]], ["zzq1", [[1, 1]]], ["zzq2", [[1, 1]]]]
     decls = [[[[None, "zzq0", 1]], ["float", "3", "4"], [[None, "zzq1", 1]]], [[[None, "zzq0", 1]], ["float", "1", "2"], [[None, "zzq1", 1]]],
